@@ -766,6 +766,7 @@ package xpath
 //@   loop 1 invariant[climb@C01] S0 ==> kind(pos(captured(node))) != 2 && endOf(pos(captured(node))) == at(0, endOf(pos(captured(node))))     // a climb goes through last children only: the number of following nodes does not change
 //@   ensures[ends-at-root@C01] result == nil ==> isroot(pos(captured(node)))
 //@   ensures[end-of-document@C01] S0 && result == nil ==> endOf(pos(captured(node))) == at(0, endOf(pos(captured(node))))
+//@   apply sibOrder(parent(pos(captured(node))), idx(pos(captured(node))) - 1)
 //@   ensures[adjacent-subtree@C01] S0 && result != nil ==> pos(captured(node)) == at(0, pos(captured(node))) || pre(pos(captured(node))) == at(0, endOf(pos(captured(node))))     // the subtree walked next starts exactly where the previous one ended
 //@ func (*followingQuery).Select$2$1
 //@   props C15 C01
@@ -797,6 +798,7 @@ package xpath
 //@   loop 1 invariant[climb@C01] S0 ==> kind(pos(captured(node))) != 2 && nPrec(pos(captured(node))) == at(0, nPrec(pos(captured(node))))     // a climb goes through first children only: the number of preceding nodes does not change
 //@   ensures[ends-at-root@C01] result == nil ==> isroot(pos(captured(node)))
 //@   ensures[start-of-document@C01] S0 && result == nil ==> nPrec(pos(captured(node))) == at(0, nPrec(pos(captured(node))))
+//@   apply sibOrder(parent(pos(captured(node))), idx(pos(captured(node))))
 //@   ensures[adjacent-subtree@C01] S0 && result != nil ==> pos(captured(node)) == at(0, pos(captured(node))) || endOf(pos(captured(node))) - depth(pos(captured(node))) == at(0, nPrec(pos(captured(node))))     // the subtree walked next ends exactly where the previous one started
 //@ func (*precedingQuery).Select$2$1
 //@   props C15 C01
